@@ -4,6 +4,7 @@ import (
 	"fmt"
 	"sort"
 	"strconv"
+	"strings"
 	"time"
 
 	"github.com/goghcrow/yae/types"
@@ -238,12 +239,18 @@ func keyFromText(s string, kt *model.Type) (*model.Val, error) {
 		if err != nil {
 			return nil, err
 		}
-		t, err := time.Parse(goTimeLayout, u)
+		// "2006-01-02 15:04:05.999999999 -0700 MST": the zone abbreviation can be any
+		// text, so read the instant from the part before it
+		i := strings.LastIndexByte(u, ' ')
+		if i < 0 {
+			return nil, fmt.Errorf("not a time rendering")
+		}
+		t, err := time.Parse("2006-01-02 15:04:05.999999999 -0700", u[:i])
 		if err != nil {
-			// monotonic-clock suffix or unusual zone names: fall back on the numeric part
 			return nil, err
 		}
-		return model.VTime(timeV(t)), nil
+		_, off := t.Zone()
+		return model.VTime(model.TimeV{Unix: t.Unix(), Nano: t.Nanosecond(), Off: off, Zone: u[i+1:]}), nil
 	case model.TBot:
 		return nil, fmt.Errorf("entry in a map of ⊥ keys")
 	}
